@@ -130,6 +130,8 @@ pub enum OpT {
     AttUnknown { known: u16, unknown: u16, dir: u8 },
     RemAbsentAtt(u16, u16),
     RemAttUnknownArg { known: u16, unknown: u16, dir: u8 },
+    /// creates k+1 throw-away arguments and removes them again (valid updates): ids grow by k+1
+    Inflate(u8),
 }
 
 #[derive(Clone, Debug, Serialize, Deserialize)]
@@ -137,7 +139,14 @@ pub struct DynCase {
     pub kind: DynKind,
     pub factor: u8,
     pub ops: Vec<OpT>,
+    /// number of label groups (0 or 1: one group). Attacks stay inside a group, so the live framework is a
+    /// disjoint union of up to 5 parts of <= 7 arguments each (up to 35 live arguments) and the reference
+    /// answer is exact by composition.
+    #[serde(default)]
+    pub groups: u8,
 }
+
+pub const GROUP_STRIDE: usize = 16;
 
 /// A concrete step after resolution against the model (for messages and samples).
 #[derive(Clone, Debug, Serialize)]
@@ -153,25 +162,38 @@ pub enum Step {
     InvalidRemArg(usize),
     InvalidNewAtt(usize, usize),
     InvalidRemAtt(usize, usize),
+    Inflate(usize),
 }
 
 #[derive(Default)]
 pub struct Model {
     pub live: BTreeSet<usize>,
     pub atts: BTreeSet<(usize, usize)>,
+    /// number of label groups (0 is read as 1)
+    pub groups: usize,
 }
 
 impl Model {
-    fn graph(&self) -> (G, Vec<usize>) {
-        let live: Vec<usize> = self.live.iter().copied().collect();
+    pub fn n_groups(&self) -> usize {
+        self.groups.max(1)
+    }
+    fn group_of(l: usize) -> usize {
+        l / GROUP_STRIDE
+    }
+    /// the live sub-framework of one group, with its labels in increasing order
+    fn group_graph(&self, g: usize) -> (G, Vec<usize>) {
+        let live: Vec<usize> = self.live.iter().copied().filter(|l| Self::group_of(*l) == g).collect();
         let pos = |l: usize| live.iter().position(|x| *x == l).unwrap();
-        let att: Vec<(usize, usize)> = self.atts.iter().map(|(a, b)| (pos(*a), pos(*b))).collect();
+        let att: Vec<(usize, usize)> = self.atts.iter().filter(|(a, _)| Self::group_of(*a) == g).map(|(a, b)| (pos(*a), pos(*b))).collect();
         (G::new(live.len(), &att), live)
     }
     fn dead_labels(&self) -> Vec<usize> {
         // labels of the universe that are not live, plus one that is never created
-        let mut v: Vec<usize> = (0..UNIVERSE).filter(|l| !self.live.contains(l)).collect();
-        v.push(99);
+        let mut v: Vec<usize> = (0..self.n_groups())
+            .flat_map(|g| (0..UNIVERSE).map(move |k| g * GROUP_STRIDE + k))
+            .filter(|l| !self.live.contains(l))
+            .collect();
+        v.push(9_999);
         v
     }
 }
@@ -181,12 +203,16 @@ fn resolve(op: &OpT, m: &Model, kind: DynKind) -> Option<Step> {
     let atts: Vec<(usize, usize)> = m.atts.iter().copied().collect();
     match op {
         OpT::NewArg(r) => {
-            if live.len() >= MAX_LIVE {
+            // the group is taken from the low bits, the label inside the group from the whole value
+            let g = (*r as usize) % m.n_groups();
+            let in_group = live.iter().filter(|l| Model::group_of(**l) == g).count();
+            if in_group >= MAX_LIVE {
                 return None;
             }
-            let free: Vec<usize> = (0..UNIVERSE).filter(|l| !m.live.contains(l)).collect();
+            let free: Vec<usize> = (0..UNIVERSE).map(|k| g * GROUP_STRIDE + k).filter(|l| !m.live.contains(l)).collect();
             Some(Step::NewArg(free[idx(*r, free.len())]))
         }
+        OpT::Inflate(k) => Some(Step::Inflate(*k as usize % 48 + 1)),
         OpT::RemArg(r) => {
             if live.is_empty() {
                 return None;
@@ -197,7 +223,10 @@ fn resolve(op: &OpT, m: &Model, kind: DynKind) -> Option<Step> {
             if live.is_empty() {
                 return None;
             }
-            let (a, b) = (live[idx(*a, live.len())], live[idx(*b, live.len())]);
+            // attacks stay inside a group
+            let a = live[idx(*a, live.len())];
+            let same: Vec<usize> = live.iter().copied().filter(|l| Model::group_of(*l) == Model::group_of(a)).collect();
+            let b = same[idx(*b, same.len())];
             if m.atts.contains(&(a, b)) {
                 None
             } else {
@@ -298,6 +327,14 @@ pub fn apply_valid(s: &mut Box<dyn Dyn>, m: &mut Model, op: &OpT, kind: DynKind)
             s.remove_attack(&a, &b).map_err(|e| fail("remove_attack", e.to_string()))?;
             m.atts.remove(&(a, b));
         }
+        Step::Inflate(k) => {
+            for j in 0..k {
+                s.new_argument(1_000 + j);
+            }
+            for j in 0..k {
+                s.remove_argument(&(1_000 + j)).map_err(|e| fail("remove_argument", e.to_string()))?;
+            }
+        }
         Step::DC(a, cert) => Dynamic { faults: false }.query_inner(s, m, kind, a, true, cert, "", false)?,
         Step::DS(a, cert) => Dynamic { faults: false }.query_inner(s, m, kind, a, false, cert, "", false)?,
         _ => {}
@@ -339,14 +376,21 @@ impl Dynamic {
         ctx: &str,
         guarded: bool,
     ) -> CheckResult {
-        let (g, live) = m.graph();
-        let fams = Fams::new(&g);
+        let ga = Model::group_of(a);
         let (cs, ss) = kind.sems();
         let sem = if cred { cs.unwrap() } else { ss.unwrap() };
-        let exts = fams.exts(sem);
+        // every group is a union of connected components: extensions of the whole are products
+        let parts: Vec<(usize, Vec<usize>, Vec<u32>)> = (0..m.n_groups())
+            .map(|g| {
+                let (gg, live) = m.group_graph(g);
+                (g, live, Fams::new(&gg).exts(sem))
+            })
+            .collect();
+        let exists_all = parts.iter().all(|(_, _, e)| !e.is_empty());
+        let (_, live, exts) = parts.iter().find(|(g, _, _)| *g == ga).cloned().unwrap();
         let pos = live.iter().position(|x| *x == a).unwrap();
         let bit = 1u32 << pos;
-        let expected = if cred { oracle::dc(&exts, bit) } else { oracle::ds(&exts, bit) };
+        let expected = if cred { exists_all && oracle::dc(&exts, bit) } else { !exists_all || oracle::ds(&exts, bit) };
         let qn = if cred { "DC" } else { "DS" };
         let sig = format!("{}/{:?}/{}-{}{}", self.pid(), kind, qn, sem.name(), ctx);
         let run_it = |s: &mut Box<dyn Dyn>| {
@@ -371,7 +415,7 @@ impl Dynamic {
         if got != expected {
             return Err(Failure::new(
                 format!("{}/status-got-{}-expected-{}", sig, got, expected),
-                format!("argument {} live {:?} attacks {:?} reference {:?}", a, live, m.atts, masks_to_vecs(&exts)),
+                format!("argument {} live {:?} attacks {:?} reference on its group {:?} (every group has an extension: {})", a, m.live, m.atts, masks_to_vecs(&exts), exists_all),
             ));
         }
         if let Some(c) = certv {
@@ -381,37 +425,44 @@ impl Dynamic {
                 (false, Some(_)) => return Err(Failure::new(format!("{}/unexpected-certificate", sig), format!("argument {}", a))),
                 (true, None) => return Err(Failure::new(format!("{}/missing-certificate", sig), format!("argument {}", a))),
                 (true, Some(v)) => {
-                    let mut mask = 0u32;
+                    // project the certificate on every group
+                    let mut masks: Vec<u32> = vec![0; parts.len()];
                     for l in &v {
-                        let p = match live.iter().position(|x| x == l) {
+                        let gi = Model::group_of(*l);
+                        let p = parts.get(gi).and_then(|(_, lv, _)| lv.iter().position(|x| x == l));
+                        let p = match p {
                             Some(p) => p,
                             None => {
                                 return Err(Failure::new(
                                     format!("{}/certificate-has-dead-argument", sig),
-                                    format!("certificate {:?} live {:?}", v, live),
+                                    format!("certificate {:?} live {:?}", v, m.live),
                                 ))
                             }
                         };
-                        if mask & (1 << p) != 0 {
+                        if masks[gi] & (1 << p) != 0 {
                             return Err(Failure::new(format!("{}/certificate-duplicate", sig), format!("certificate {:?}", v)));
                         }
-                        mask |= 1 << p;
+                        masks[gi] |= 1 << p;
                     }
                     // a DC-PR witness may be complete only; no dynamic solver answers DC-PR
-                    if !exts.contains(&mask) {
-                        return Err(Failure::new(
-                            format!("{}/certificate-not-an-extension", sig),
-                            format!(
-                                "argument {} certificate {:?} live {:?} attacks {:?} reference {:?}",
-                                a,
-                                v,
-                                live,
-                                m.atts,
-                                masks_to_vecs(&exts)
-                            ),
-                        ));
+                    for (gi, (_, lv, e)) in parts.iter().enumerate() {
+                        if !e.contains(&masks[gi]) {
+                            return Err(Failure::new(
+                                format!("{}/certificate-not-an-extension", sig),
+                                format!(
+                                    "argument {} certificate {:?}: on group {} (live {:?}) it is {:?}, reference {:?}; attacks {:?}",
+                                    a,
+                                    v,
+                                    gi,
+                                    lv,
+                                    crate::util::mask_to_vec(masks[gi]),
+                                    masks_to_vecs(e),
+                                    m.atts
+                                ),
+                            ));
+                        }
                     }
-                    if cred != (mask & bit != 0) {
+                    if cred != (masks[ga] & bit != 0) {
                         return Err(Failure::new(
                             format!("{}/certificate-membership-wrong", sig),
                             format!("argument {} certificate {:?}", a, v),
@@ -431,6 +482,7 @@ pub fn op_strategy(faults: bool) -> BoxedStrategy<OpT> {
         24 => (any::<u16>(), any::<u16>()).prop_map(|(a, b)| OpT::NewAtt(a, b)),
         9 => any::<u16>().prop_map(OpT::RemAtt),
         42 => (any::<u16>(), any::<bool>(), any::<bool>()).prop_map(|(arg, cred, cert)| OpT::Query { arg, cred, cert }),
+        1 => any::<u8>().prop_map(OpT::Inflate),
     ];
     if !faults {
         return valid.boxed();
@@ -465,7 +517,7 @@ impl Prop for Dynamic {
         if self.faults {
             "Histories as in C08 in which ~15% of the updates are redundant (existing argument / existing attack) or invalid (removing an unknown or already removed argument, attack to/from/between unknown arguments, removing an absent attack or one with an unknown end), at any position. Redundant updates must succeed and change nothing; invalid ones must be rejected by the call itself; every later answer must be that of the model, which ignores both. Non-trivial: the history has >=1 redundant and >=1 invalid step, each followed by >=1 argument creation and >=1 query; distinct = (solver kind, factor, resolved step sequence).".into()
         } else {
-            "Histories of 5-80 (quick) / up to 200 (thorough) templates over a universe of 10 labels (<=7 live): new_argument (fresh or previously removed label), remove_argument, new_attack (absent, self-attacks included), remove_attack, and the queries the solver kind supports, with/without certificate; templates carry indices resolved against the model, so every subsequence is valid. 11 solver configurations (complete, stable, preferred, the two attack-assumption variants with 7 reservation factors, recompute wrapper over CO/PR, ST, SST, STG, ID, GR). After every query, status and certificate are compared with the brute-force semantics of the model's current framework; a final sweep asks every supported query on every live argument. Non-trivial: a query after a removal that follows an earlier query, and a re-added label or a burst of >=2 queries or (attack-assumption kinds) an argument created after the first query; distinct = (solver kind, factor, resolved step sequence).".into()
+            "Histories of 5-80 (quick) / up to 200 (thorough) templates over a universe of 10 labels (<=7 live), or, in a quarter of the cases, 2-5 groups of 10 labels with attacks confined to a group (up to 35 live arguments; the reference answer is exact by composition over the groups); one history in eight is up to three times longer; a rare operation creates and removes 1-48 throw-away arguments so that ids run into the hundreds: new_argument (fresh or previously removed label), remove_argument, new_attack (absent, self-attacks included), remove_attack, and the queries the solver kind supports, with/without certificate; templates carry indices resolved against the model, so every subsequence is valid. 11 solver configurations (complete, stable, preferred, the two attack-assumption variants with 7 reservation factors, recompute wrapper over CO/PR, ST, SST, STG, ID, GR). After every query, status and certificate are compared with the brute-force semantics of the model's current framework; a final sweep asks every supported query on every live argument. Non-trivial: a query after a removal that follows an earlier query, and a re-added label or a burst of >=2 queries or (attack-assumption kinds) an argument created after the first query; distinct = (solver kind, factor, resolved step sequence).".into()
         }
     }
     fn assumptions(&self) -> Vec<String> {
@@ -477,12 +529,17 @@ impl Prop for Dynamic {
     fn strategy(&self, tier: Tier) -> BoxedStrategy<DynCase> {
         let maxlen = tier.pick(80usize, 200usize);
         let faults = self.faults;
-        (0usize..ALL_KINDS.len() + 6, 0u8..FACTORS.len() as u8, vec(op_strategy(faults), 5..=maxlen))
-            .prop_map(|(k, factor, ops)| {
+        (
+            0usize..ALL_KINDS.len() + 6,
+            0u8..FACTORS.len() as u8,
+            prop_oneof![7 => vec(op_strategy(faults), 5..=maxlen), 1 => vec(op_strategy(faults), maxlen..=3 * maxlen)],
+            prop_oneof![3 => Just(1u8), 1 => 2u8..=5],
+        )
+            .prop_map(|(k, factor, ops, groups)| {
                 // the five incremental kinds get extra weight
                 let kind = if k < ALL_KINDS.len() { ALL_KINDS[k] } else { ALL_KINDS[(k - ALL_KINDS.len()) % 5] };
                 let kind = if k == ALL_KINDS.len() + 5 { DynKind::Pr } else { kind };
-                DynCase { kind, factor, ops }
+                DynCase { kind, factor, ops, groups }
             })
             .boxed()
     }
@@ -500,7 +557,7 @@ impl Prop for Dynamic {
             Ok(s) => s,
             Err(p) => return Err(Failure::new(format!("{}/{:?}/constructor-panic", self.pid(), kind), p)),
         };
-        let mut m = Model::default();
+        let mut m = Model { groups: case.groups as usize, ..Model::default() };
         let mut steps: Vec<Step> = vec![];
         // bookkeeping for the non-triviality rule
         let mut ever_live: BTreeSet<usize> = BTreeSet::new();
@@ -593,6 +650,22 @@ impl Prop for Dynamic {
                         }
                     });
                 }
+                Step::Inflate(k) => {
+                    for j in 0..k {
+                        let l = 1_000 + j;
+                        upd("new_argument", guard(|| {
+                            s.new_argument(l);
+                            Ok::<(), String>(())
+                        }), true)?;
+                    }
+                    for j in 0..k {
+                        let l = 1_000 + j;
+                        upd("remove_argument", guard(|| s.remove_argument(&l).map_err(|e| e.to_string())), true)?;
+                    }
+                    if seen_query {
+                        removal_after_query = true;
+                    }
+                }
                 Step::RedundantNewArg(l) => {
                     upd("redundant-new_argument", guard(|| {
                         s.new_argument(l);
@@ -651,6 +724,10 @@ impl Prop for Dynamic {
             rec.class(&format!("attack-variant-encodings-{}", encodings.min(6)));
         }
         rec.count("queries", queries as u64);
+        if case.groups >= 2 {
+            rec.class(&format!("label-groups-{}", case.groups));
+            rec.class(&format!("live-arguments-at-end-{:02}+", (m.live.len() / 5) * 5));
+        }
         let nt = if self.faults {
             pending_redundant.iter().any(|p| p.0 && p.1) && pending_invalid.iter().any(|p| p.0 && p.1)
         } else {
